@@ -16,24 +16,38 @@ EXPLANATION = ("Every 16-word block from every table state and every counter res
                "words out in index order: dependency).")
 
 
+def table_layout(g):
+    """-> (indices of the table field(s), index of the counter): one [u32; 1024] field, or two [u32; 512] fields (P, then Q)"""
+    fields = g.adt["variants"][0]["fields"]
+    iC = sq.find_field(g.adt, "counter1024", r"usize")
+    halves = [i for i, f in enumerate(fields) if f["ty"] == "[u32; 512]"]
+    if len(halves) == 2 and not any(f["ty"] == "[u32; 1024]" for f in fields):
+        return tuple(halves), iC
+    return (sq.find_field(g.adt, "t", r"\[u32; 1024\]"),), iC
+
+
 def check_generate(chk, crate, tier):
     g = Gen(crate, "Hc128Core")
     key = crate.method(g.path, "rand_core::block::BlockRngCore", "generate")
     body = crate.body(key)
     chk.body(key)
     where = body["span"][0]
-    names = [f["name"] for f in g.adt["variants"][0]["fields"]]
-    iT, iC = sq.find_field(g.adt, "t", r"\[u32; 1024\]"), sq.find_field(g.adt, "counter1024", r"usize")
+    iTs, iC = table_layout(g)
+    nf = len(g.adt["variants"][0]["fields"])
     q = T.sym("q", 54)
     bad_res, bad_tab, bad_ctr, errors = [], [], [], []
     nblocks = 0
     for k in range(64):
         ev = crate.evaluator()
         st = State()
-        t0 = ArrV(1024, 32, None, T.arr_sym("t", 1024, 32), {})
+        if len(iTs) == 1:
+            tabs = [ArrV(1024, 32, None, T.arr_sym("t", 1024, 32), {})]
+        else:
+            tabs = [ArrV(512, 32, None, T.arr_sym("p", 512, 32), {}), ArrV(512, 32, None, T.arr_sym("q", 512, 32), {})]
         ctr = T.xor(T.shl(T.zext(q, 64), 10), T.const(16 * k, 64))
-        selfv = [None, None]
-        selfv[iT] = t0
+        selfv = [None] * nf
+        for i_, t_ in zip(iTs, tabs):
+            selfv[i_] = t_
         selfv[iC] = ctr
         oid = st.alloc(Struct(selfv), "self")
         res0 = ArrV(16, 32, None, None, {i: T.sym("results[%d]" % i, 32) for i in range(16)})
@@ -46,17 +60,18 @@ def check_generate(chk, crate, tier):
         nblocks += 1
         post = st.objs[oid]
         results = st.objs[roid]
-        tb = REF.Tables(t0)
+        tb = REF.Tables(*tabs)
         outs = [REF.step(tb, 16 * k + j, False) for j in range(16)]
         for j in range(16):
             if results.get(j) is not outs[j]:
                 bad_res.append((k, j, T.diff(results.get(j), outs[j])))
         base = 16 * k
         changed = range(base, base + 16)
-        pt = post.fields[iT]
+        pts = [post.fields[i_] for i_ in iTs]
+        got_word = (lambda idx: pts[0].get(idx)) if len(pts) == 1 else (lambda idx: pts[idx // 512].get(idx % 512))
         for idx in range(1024):
-            if pt.get(idx) is not tb.arr.get(idx):
-                bad_tab.append((k, idx, T.diff(pt.get(idx), tb.arr.get(idx))))
+            if got_word(idx) is not tb.get(idx):
+                bad_tab.append((k, idx, T.diff(got_word(idx), tb.get(idx))))
                 break
         if post.fields[iC] is not T.add(ctr, T.const(16, 64)):
             bad_ctr.append((k, T.show(post.fields[iC], 3)))
@@ -72,8 +87,7 @@ def check_generate(chk, crate, tier):
 
 def check_init(chk, crate):
     g = Gen(crate, "Hc128Core")
-    names = [f["name"] for f in g.adt["variants"][0]["fields"]]
-    iT, iC = sq.find_field(g.adt, "t", r"\[u32; 1024\]"), sq.find_field(g.adt, "counter1024", r"usize")
+    iTs, iC = table_layout(g)
     key = g.method(SEEDABLE, "from_seed")
     body = crate.body(key)
     chk.body(key)
@@ -93,15 +107,18 @@ def check_init(chk, crate):
     if not ok5:
         return
     W = REF.expand(words[:4], words[4:])
-    table = ArrV(1024, 32, None, None, {i: W[256 + i] for i in range(1024)})
-    tb = REF.Tables(table)
+    if len(iTs) == 1:
+        tb = REF.Tables(ArrV(1024, 32, None, None, {i: W[256 + i] for i in range(1024)}))
+    else:
+        tb = REF.Tables(ArrV(512, 32, None, None, {i: W[256 + i] for i in range(512)}), ArrV(512, 32, None, None, {i: W[768 + i] for i in range(512)}))
     for i in range(1024):
         REF.step(tb, i, True)
-    got = r.fields[iT]
-    bad = [i for i in range(1024) if got.get(i) is not tb.arr.get(i)]
+    gots = [r.fields[i_] for i_ in iTs]
+    got_word = (lambda idx: gots[0].get(idx)) if len(gots) == 1 else (lambda idx: gots[idx // 512].get(idx % 512))
+    bad = [i for i in range(1024) if got_word(i) is not tb.get(i)]
     chk.ob("R4", "Hc128Core::from_seed|table = specification's expansion (key words 0-3, IV words 4-7) + 1024 feedback steps, for all 1024 words",
-           not bad, "" if not bad else "first differing table word %d: %s" % (bad[0], T.diff(got.get(bad[0]), tb.arr.get(bad[0]))), where=where,
-           sample={"table_words": 1024, "t[0]": T.show(got.get(0), 2)})
+           not bad, "" if not bad else "first differing table word %d: %s" % (bad[0], T.diff(got_word(bad[0]), tb.get(bad[0]))), where=where,
+           sample={"table_words": 1024, "t[0]": T.show(got_word(0), 2)})
     okc = r.fields[iC] is T.const(0, 64)
     chk.ob("R4", "Hc128Core::from_seed|step counter starts at 0", okc, T.show(r.fields[iC]), where=where, nontrivial=False)
 
